@@ -316,6 +316,15 @@ def collect(prop, tier):
                 path = vlib.save_replay(prop, "hub2-%d" % mon["id"], dict(property=prop, key=mon["key"], hub2script=byid[mon["id"]]))
                 violations.append((vlib.key_str(mon["key"][1:]), path))
         notes = ["formula of another property failed in this run: %s (scenario %d); run that property's check" % (k, v) for k, v in sorted(others.items())]
+        if others and os.environ.get("VERIF_NOTES_DIR"):
+            # diagnosis aid: the observations of the scenarios another property's formula flagged
+            os.makedirs(os.environ["VERIF_NOTES_DIR"], exist_ok=True)
+            want = {v: k for k, v in others.items()}
+            for line in open(obs):
+                o = json.loads(line)
+                if o["id"] in want:
+                    with open(os.path.join(os.environ["VERIF_NOTES_DIR"], "%s-%s-%d-%d.json" % (prop, want[o["id"]].replace("/", "_"), o["id"], int(time.time()))), "w") as f:
+                        f.write(line)
         if model_note:
             notes.append(model_note)
         stable, unsettled = 0, 0
